@@ -248,7 +248,8 @@ def with_generated(reqs, exp):
     (Generated/RDOps.lean, ops rdgen.*): the translator is validated against the implementation like the model is"""
     gen = {"rd.add": "rdgen.add", "rd.rsub": "rdgen.rsub", "rd.mk": "rdgen.mk", "rd.expr": "rdgen.expr",
            "rd.bool": "rdgen.bool", "rd.hash": "rdgen.hash", "rd.eq": "rdgen.eq", "rd.diff": "rdgen.diff",
-           "rd.diffn": "rdgen.diffn", "rd.diffo": "rdgen.diffo"}
+           "rd.diffn": "rdgen.diffn", "rd.diffo": "rdgen.diffo", "rd.muldy": "rdgen.muldy", "rd.divp2": "rdgen.divp2",
+           "rd.normalized": "rdgen.normalized"}
     r2, e2 = list(reqs), list(exp)
     for q, e in zip(reqs, exp):
         op = q.split(" ", 1)[0]
